@@ -136,22 +136,54 @@ class TokenStreamHooks(SelfHooks):
 
     def iter_item(self, interp, loop, k, state):
         src = text(loop.iter).replace(' ', '')
-        if src in ('self', 'iter(self)'):
+        if src in ('self', 'iter(self)', 'tex', 'iter(tex)'):
             items = self.expanded
-        elif src in ('self.itertokens()', 'iter(self.itertokens())'):
+        elif src in ('self.itertokens()', 'iter(self.itertokens())', 'tex.itertokens()', 'iter(tex.itertokens())'):
             items = self.raw
         else:
-            return None
+            v = interp.ev(loop.iter, state)
+            if isinstance(v, A.Sym) and v.label == 'rawstream':
+                items = self.raw
+            elif isinstance(v, A.Sym) and v.label == 'expandedstream':
+                items = self.expanded
+            else:
+                return None
         pos = state.env.get('__pos', 0)
         if pos >= len(items):
             return A.STOP
         state.env['__pos'] = pos + 1
         return items[pos]
 
+    def call(self, interp, node, fname, args, kwargs, state):
+        if fname in ('self.itertokens', 'tex.itertokens') and not args:
+            return A.Sym('rawstream')
+        if fname == 'iter' and len(args) == 1 and isinstance(args[0], A.Sym) and args[0].label in ('rawstream', 'expandedstream'):
+            return args[0]
+        if fname == 'next' and args and isinstance(args[0], A.Sym) and args[0].label in ('rawstream', 'expandedstream'):
+            items = self.raw if args[0].label == 'rawstream' else self.expanded
+            pos = state.env.get('__pos', 0)
+            if pos < len(items):
+                state.env['__pos'] = pos + 1
+                return items[pos]
+            if len(args) > 1:
+                return A.NONE if args[1] is None else args[1]
+            state.env['__exc'] = 'StopIteration'
+            return A.TOP
+        if fname == 'str' and len(args) == 1:
+            if isinstance(args[0], A.Sym) and 'char' in args[0].attrs:
+                return args[0].attrs['char']
+            if isinstance(args[0], A.Inst) and args[0].args and isinstance(args[0].args[0], str):
+                return args[0].args[0]
+        return None
+
     def decide(self, interp, test, state):
         if isinstance(test, ast.Compare) and len(test.ops) == 1 and isinstance(test.ops[0], (ast.Eq, ast.NotEq, ast.In, ast.NotIn)):
             l = interp.ev(test.left, state)
             r = interp.ev(test.comparators[0], state)
+            if isinstance(r, A.Sym) and 'char' in r.attrs and isinstance(l, (str, A.Inst)):
+                l, r = r, l
+            if isinstance(r, A.Inst) and r.args and isinstance(r.args[0], str):
+                r = r.args[0]          # a token object built from a character: Other('[')
             if isinstance(l, A.Sym) and 'char' in l.attrs and isinstance(r, (str, tuple, list)):
                 if isinstance(test.ops[0], (ast.Eq, ast.NotEq)):
                     res = isinstance(r, str) and l.attrs['char'] == r
@@ -192,3 +224,45 @@ def sign_rules(chk, m, rid):
         chk.decide(R, 'readOptionalSigns: %s' % label, got, {('return', repr(want), tuple(pushed))},
                    'reading the signs of %s gives (outcome, sign, tokens pushed back) %s; expected sign %+d with %s pushed back'
                    % ([t.attrs['char'] for t in expanded], sorted(got), want, pushed), chk.where(fn))
+
+
+def grouping_rules(chk, m, rid):
+    R = chk.rule(rid, 'readGrouping (abstract interpretation over token streams): a present group yields the list of its tokens '
+                 '(an empty list when it is empty, never "absent"), nested delimiters are counted, a control sequence named like a '
+                 'delimiter (\\[ \\]) is not a delimiter, and a token that does not open the group is pushed back', 6)
+    TeX = m.cls('plasTeX.TeX', 'TeX')
+    fn = m.find_method(TeX, 'readGrouping')
+    need(fn is not None, 'TeX.readGrouping not found')
+    chk.analysed(fn)
+    LB, RB = (lambda: tok('[')), (lambda: tok(']'))
+    a, b = tok('a', 11), tok('b', 11)
+    ELB, ERB = tok('[', 0, element=True), tok(']', 0, element=True)
+    cases = [('empty group', [LB(), RB()], ('list', [])),
+             ('one token', [LB(), a, RB()], ('list', ['tok:a'])),
+             ('nested delimiters', [LB(), LB(), a, RB(), RB()], ('list', ['tok:[', 'tok:a', 'tok:]'])),
+             ('a control sequence \\[ does not open a group', [ELB, a, RB()], ('absent', 'tok:[')),
+             ('a control sequence \\] does not close the group', [LB(), a, ERB, b, RB()], ('list', ['tok:a', 'tok:]', 'tok:b'])),
+             ('another token is pushed back', [a], ('absent', 'tok:a'))]
+    for label, stream, want in cases:
+        h = TokenStreamHooks(m, TeX, stream, stream)
+        h.keep = lambda ev: ev[0] == 'call' and ev[1] == 'self.pushToken'
+        h.should_inline = A.private_only
+        it = A.Interp(model=m, scope=fn, hooks=h, max_iter=len(stream) + 2, exc_edges=False, inline=2)
+        outs = it.run_function(fn, env={'chars': '[]', 'expanded': False, 'parentNode': None})
+        chk.paths += len(outs)
+        got = set()
+        for kind, s2, v in outs:
+            if kind != 'return':
+                continue
+            pushed = [x.label if isinstance(x, A.Sym) else repr(x) for e in s2.trace for x in e[2]]
+            first = v[0] if isinstance(v, tuple) and v else A.TOP
+            if isinstance(first, list):
+                got.add(('list', tuple(x.label if isinstance(x, A.Sym) else repr(x) for x in first)) + ((tuple(pushed),) if pushed else ()))
+            elif first is None:
+                got.add(('absent', pushed[0] if len(pushed) == 1 else tuple(pushed)))
+            else:
+                got.add(('TOP',))
+        w = ('list', tuple(want[1])) if want[0] == 'list' else want
+        chk.decide(R, 'readGrouping: %s' % label, got, {w},
+                   'readGrouping("[]") on %s gives %s, expected %s' % ([t.attrs['char'] if t.attrs['catcode'] else '\\' + t.attrs['char'] for t in stream],
+                                                                    sorted(got, key=repr), w), chk.where(fn))
